@@ -45,6 +45,14 @@ class RB:
         self.pat, self.repl, self.flags = pat, repl, flags
 
 
+class ALIAS:
+    """Reference-alias rule: every `auto& name = <lvalue expr>;` (or `const auto&`) whose expression matches `expr_pat` becomes a
+    pointer `__typeof__(expr) *name_ref = &(expr);` and later uses of `name` become `(*name_ref)`.  Any count (vocabulary)."""
+
+    def __init__(self, expr_pat=r"[^;]+"):
+        self.expr_pat = expr_pat
+
+
 class Unit:
     def __init__(self, name, file, anchor, sig, rules=(), contract="", loops=None,
                  inner=None, pre="", defs="", undefs=True, keep_asserts=True,
@@ -171,6 +179,16 @@ LOOP_RE = re.compile(r"\b(for|while|do)\b")
 
 
 def _apply(text, rule, unit_name):
+    if isinstance(rule, ALIAS):
+        rx = re.compile(r"(?:const\s+)?auto&\s+(\w+)\s*=\s*(%s);" % rule.expr_pat)
+        while True:
+            m = rx.search(text)
+            if not m:
+                return text
+            name, expr = m.group(1), m.group(2).strip()
+            head = text[:m.start()] + "__typeof__(%s) *%s_ref = &(%s);" % (expr, name, expr)
+            tail = re.sub(r"\b%s\b(?!_ref)" % re.escape(name), "(*%s_ref)" % name, text[m.end():])
+            text = head + tail
     if isinstance(rule, RB):
         ms = list(re.finditer(rule.pat, text, rule.flags | re.M))
         if len(ms) != 1:
